@@ -83,15 +83,21 @@ def main(cases_fn, replay_fn=None, describe=None):
         raise CaseTimeout()
     signal.signal(signal.SIGALRM, on_alarm)
     per_case = float(os.environ.get('VERIF_CASE_TIMEOUT', '20'))
+    import contextlib
+
+    @contextlib.contextmanager
+    def guard():
+        # time limit on the call of the real function only (not on evaluating the contract)
+        signal.setitimer(signal.ITIMER_REAL, per_case)
+        try:
+            yield
+        finally:
+            signal.setitimer(signal.ITIMER_REAL, 0)
     for (contract, func, args, label) in cases_fn(L, a.tier, a.seed):
         n += 1
         per_key[contract.key] = per_key.get(contract.key, 0) + 1
         try:
-            signal.setitimer(signal.ITIMER_REAL, per_case)
-            try:
-                runtime_check(contract, func, args, L, stats)
-            finally:
-                signal.setitimer(signal.ITIMER_REAL, 0)
+            runtime_check(contract, func, args, L, stats, call_guard=guard)
         except (CaseTimeout, MemoryError) as ex:
             k = (contract.key, 'raises:does-not-terminate' if isinstance(ex, CaseTimeout) else 'raises:MemoryError')
             by_clause[k] = by_clause.get(k, 0) + 1
